@@ -380,12 +380,13 @@ class FileSystemChain(FileSystem[File[FileSystem[Any]]]):
         """
         for sys, prefix in self.systems:
             full_folder = os.path.join(prefix, folder).replace('\\', '/')
+            # The files are all inside the prefix folder, but may spell it with different case or
+            # slashes. So strip it by counting components, not by comparing the names.
+            norm_prefix = os.path.normpath(prefix).replace('\\', '/')
+            depth = 0 if norm_prefix == '.' else norm_prefix.count('/') + 1
             for file in sys.walk_folder(full_folder):
-                yield File(
-                    self,
-                    os.path.relpath(file.path, prefix).replace('\\', '/'),
-                    file,
-                )
+                parts = os.path.normpath(file.path).replace('\\', '/').split('/')
+                yield File(self, '/'.join(parts[depth:]), file)
 
     def _get_cache_key(self, file: File[Self]) -> int:
         """Return the last modified time of this file.
